@@ -113,6 +113,31 @@ impl MultiWorld {
         Ok(out)
     }
 
+    /// Shards whose count of registered watchers is below the number of live watches on keys of that shard: a write
+    /// to such a key may skip the modification counter and the watcher's EXEC would not notice it. (The count may
+    /// be above: registrations ended by EXEC/DISCARD are left behind, which only costs time.)
+    fn watch_registration_deficits(&self) -> Vec<String> {
+        let srv = self.srv.as_ref().unwrap();
+        let rows = (srv.h.connections)();
+        let mut live: std::collections::BTreeMap<(usize, usize), (usize, Vec<u8>)> = std::collections::BTreeMap::new();
+        for c in self.conns.iter().flatten() {
+            if let Some(r) = rows.iter().find(|r| r.id == c.id) {
+                for (db, key, _) in r.watched_detail.iter() {
+                    let e = live.entry((*db, srv.h.storage.verif_shard_of(key))).or_insert((0, key.clone()));
+                    e.0 += 1;
+                }
+            }
+        }
+        let mut out = Vec::new();
+        for ((db, shard), (n, key)) in live {
+            let (active, _) = srv.h.storage.verif_watch_state(db, &key);
+            if active < n {
+                out.push(format!("db{} shard {}: {} live watch(es), {} registered", db, shard, n, active));
+            }
+        }
+        out
+    }
+
     fn normalized_conn_state(&self) -> String {
         let srv = self.srv.as_ref().unwrap();
         let rows = (srv.h.connections)();
@@ -134,6 +159,9 @@ impl MultiWorld {
                 },
                 None => s.push_str(&format!("c{}: closed\n", i)),
             }
+        }
+        for d in self.watch_registration_deficits() {
+            s.push_str(&format!("watch registration deficit: {}\n", d));
         }
         // pub/sub tables with connection ids mapped to indexes
         let idx_of = |id: u64| -> String {
@@ -391,6 +419,10 @@ impl World for MultiWorld {
         let mut out = ProbeOut { devs: vec![], probes: 0, state_bad: false, outcome_hashes: vec![] };
         for v in self.pubsub_invariant() {
             out.devs.push((format!("{}|INVARIANT|{}", self.spec.prop, v), json!({"invariant": v})));
+            out.state_bad = true;
+        }
+        for d in self.watch_registration_deficits() {
+            out.devs.push((format!("{}|INVARIANT|fewer watchers registered in a shard than live watches", self.spec.prop), json!({"deficit": d})));
             out.state_bad = true;
         }
         // implementation-side connection state must agree with the model
